@@ -132,6 +132,10 @@ def fold(t):
     if k == "LocS" and is_const(t[3]):
         return Const(t[2] + "(..)")
     if k == "Not":
+        if t[1] == Const("True"):
+            return FalseC
+        if t[1] == FalseC:
+            return Const("True")
         if is_const(t[1]):
             return Const("not(..)")
         if t[1][0] == "Not":
@@ -198,7 +202,7 @@ NO_EFFECT = {"seed"}
 LIBS = {"np", "numpy", "scind", "scipy", "_filter"}
 # functions of the anchored modules that are inlined when called
 INLINE = {"grey_erosion", "grey_dilation", "opening", "closing", "hsobel", "vsobel", "hprewitt", "vprewitt",
-          "smooth_with_function_and_mask", "masked_convolution"}
+          "smooth_with_function_and_mask", "masked_convolution", "regional_maximum"}
 # truthiness-preserving conversions (identity on mask-like terms)
 CONVERSIONS = {"astype", "asarray", "array", "ascontiguousarray", "copy"}
 SHAPE_ATTRS = {"shape", "dtype", "ndim", "size", "eps"}
@@ -304,6 +308,26 @@ def norm_hash(fn):
 ast_hash = norm_hash          # (name kept for mk_pins_c12.py)
 
 
+def loop_hash(fn, st):
+    """normalised hash of ONE loop statement of fn: the loop wrapped in a function with fn's parameters; locals of fn that
+    the loop only reads are renamed by first occurrence, the rest as in norm_hash"""
+    params = {a.arg for a in fn.args.args + fn.args.kwonlyargs}
+    fn_stores = {n.id for n in ast.walk(fn) if isinstance(n, ast.Name) and isinstance(n.ctx, ast.Store)}
+    st = copy.deepcopy(st)
+    loop_stores = {n.id for n in ast.walk(st) if isinstance(n, ast.Name) and isinstance(n.ctx, ast.Store)}
+    free, ren = [], {}
+    for n in sorted((n for n in ast.walk(st) if isinstance(n, ast.Name)), key=lambda n: (n.lineno, n.col_offset)):
+        if n.id in fn_stores and n.id not in loop_stores and n.id not in params and n.id not in free:
+            free.append(n.id)
+    ren = {name: "_f%d" % k for k, name in enumerate(free)}
+    for n in ast.walk(st):
+        if isinstance(n, ast.Name) and n.id in ren:
+            n.id = ren[n.id]
+    wrapper = ast.FunctionDef(name="_loop", args=copy.deepcopy(fn.args), body=[st], decorator_list=[], returns=None,
+                              type_comment=None, lineno=0, col_offset=0)
+    return norm_hash(wrapper)
+
+
 class Module:
     def __init__(self, sources):
         """sources: {modname: text}.  Function table over all modules (later modules do not override)."""
@@ -329,6 +353,7 @@ class Interp:
         self.env = dict(args)
         self.depth = depth
         self.budget = [400]            # number of branch splits allowed in this activation
+        self.loop_conds = []           # stack: exit conditions met while a loop body is evaluated symbolically
         if depth > 6:
             raise Unsupported("inlining too deep")
 
@@ -427,6 +452,12 @@ class Interp:
             if self.free_deps(n.body, env):
                 raise Unsupported("lambda closing over array data")
             return Const("$callable")
+        if isinstance(n, ast.IfExp):
+            k = self.mask_test(n.test, env)
+            if k is True:
+                return self.ev(n.body, env)
+            if k is False:
+                return self.ev(n.orelse, env)
         if isinstance(n, (ast.ListComp, ast.GeneratorExp, ast.IfExp)):
             for c in ast.walk(n):
                 if isinstance(c, ast.Call):
@@ -659,6 +690,13 @@ class Interp:
                     env[st.target.id] = fold(Pw(op, *ts)) if ts else Const("expr")
                 elif isinstance(st.target, ast.Subscript):
                     self.assign_sub(st.target, st.value, env, aug=op)
+                elif isinstance(st.target, ast.Attribute) and st.target.attr == "flat" and isinstance(st.target.value, ast.Name):
+                    # x.flat op= v : in-place update of x in flattened order, a pure function of x and v
+                    name = st.target.value.id
+                    parts = [t for t in (self.ev(st.target.value, env), self.ev(st.value, env)) if not is_const(t)]
+                    if any(t[0] == "Seq" for t in parts):
+                        raise Unsupported("sequence in a flat update")
+                    env[name] = Glob("flat_" + op, *parts) if parts else Const("expr")
                 else:
                     raise Unsupported("augmented target")
                 continue
@@ -681,11 +719,16 @@ class Interp:
                     return self.block(st.orelse + rest, env)
                 if cond[0] == "Seq":
                     raise Unsupported("truth value of a sequence")
-                if is_const(cond):
-                    merged = self.try_merge(st, env)
-                    if merged is not None:
-                        env.clear(); env.update(merged)
-                        continue
+                if self.loop_exit(st):
+                    # `if c: break` / `if c: continue` inside a loop evaluated symbolically: the iteration may be cut short;
+                    # the condition is recorded (a data-dependent one makes the loop's result a global function)
+                    if not is_const(cond):
+                        self.loop_conds[-1].append(cond)
+                    continue
+                merged = self.try_merge(st, env, cond)
+                if merged is not None:
+                    env.clear(); env.update(merged)
+                    continue
                 # split: each branch is continued with the rest of the body
                 self.budget[0] -= 1
                 if self.budget[0] < 0:
@@ -701,28 +744,34 @@ class Interp:
             raise Unsupported(type(st).__name__)
         return None
 
-    def try_merge(self, st, env):
-        """configuration `if` whose branches do not return and agree on every array: one merged environment"""
+    def loop_exit(self, st):
+        return bool(self.loop_conds) and not st.orelse and len(st.body) == 1 and isinstance(st.body[0], (ast.Break, ast.Continue))
+
+    def try_merge(self, st, env, cond):
+        """`if` whose branches do not return: one merged environment; a variable on which the branches disagree becomes
+        Select(then-value, cond, else-value) (cond is a scalar, so the select is the same at every index); image-
+        independent values that differ become one opaque constant when the condition is image-independent too"""
         envs = []
         for body in (st.body, st.orelse):
             e = dict(env)
-            try:
-                if any(isinstance(c, ast.Return) for b in body for c in ast.walk(b)):
-                    return None
-                if self.block(body, e) is not None:
-                    return None
-            except Unsupported:
-                raise
+            if any(isinstance(c, ast.Return) for b in body for c in ast.walk(b)):
+                return None
+            if self.block(body, e) is not None:
+                return None
             envs.append(e)
         out = {}
         for name in set(envs[0]) | set(envs[1]):
             a, b = envs[0].get(name), envs[1].get(name)
             if a == b:
                 out[name] = a
-            elif (a is None or is_const(a)) and (b is None or is_const(b)):
+            elif (a is None or is_const(a)) and (b is None or is_const(b)) and is_const(cond):
                 out[name] = Const("cfg:" + name)
             else:
-                return None
+                a = Const("undefined") if a is None else a
+                b = Const("undefined") if b is None else b
+                if a[0] in ("Seq", "Slices") or b[0] in ("Seq", "Slices"):
+                    return None
+                out[name] = fold(Select(a, cond, b))
         return out
 
     def assign(self, t, value, env):
@@ -847,6 +896,11 @@ class Interp:
     def loop(self, st, env):
         """for/while: every variable written in the loop becomes an opaque pure function of the entry values of every
         variable read in the loop (loop-carried or not)."""
+        for sm in getattr(self.m, "summaries", {}).get(self.fn.name, []):
+            # a hand-written summary of this very loop (pinned to the loop's normalised hash)
+            if sm["pin"] is not None and sm["pin"] == loop_hash(self.fn, st):
+                sm["apply"](self, env)
+                return
         written, read = [], []
         for c in ast.walk(st):
             if isinstance(c, ast.Return):
@@ -899,7 +953,12 @@ class Interp:
         image-independent constants, which the checker ignores).  When every path from a carried placeholder to the
         root is pointwise (Pw / Select / plane of a stack) the function is pointwise in p as well.
         Returns False (caller falls back to the coarse abstraction) when the body cannot be evaluated this way."""
-        if any(isinstance(c, (ast.Break, ast.Continue)) for c in ast.walk(st)) or st.orelse:
+        if st.orelse:
+            return False
+        exits = [c for c in ast.walk(st) if isinstance(c, (ast.Break, ast.Continue))]
+        guarded = [c.body[0] for c in ast.walk(st) if isinstance(c, ast.If) and not c.orelse and len(c.body) == 1
+                   and isinstance(c.body[0], (ast.Break, ast.Continue))]
+        if any(x not in guarded for x in exits):
             return False
         e2 = dict(env)
         targets = []
@@ -914,12 +973,16 @@ class Interp:
             e2[w] = Carry(w)
         for t in targets:
             e2[t] = Const("loopvar:" + t)
+        self.loop_conds.append([])
         try:
             extra = [self.ev(st.test, e2)] if isinstance(st, ast.While) else []
             if self.block(st.body, e2) is not None:
                 return False
+            extra = extra + self.loop_conds[-1]
         except Unsupported:
             return False
+        finally:
+            self.loop_conds.pop()
         terms = {w: e2[w] for w in carried if e2.get(w) is not None and e2[w] != Carry(w)}
         memo = {}
 
@@ -980,7 +1043,8 @@ class Interp:
         return True
 
 
-def translate(module, name, image_param=None, callables=()):
+def translate(module, name, image_param=None, callables=(), struct_id=0):
+    module.struct_id = struct_id          # index of the abstract structure used by loop summaries
     fn = module.funcs[name]
     params = [a.arg for a in fn.args.args]
     env = {}
